@@ -214,8 +214,6 @@ def run(ctx: Ctx) -> int:
                 "registry_actions": [[e["a"], e["o"], e["nm"] or e["n"]] for e in results[0]["real"]["rec"].events]})
     # ---- code -> spec: executions that do not come from the spec
     pk = testpackages()
-    if ctx.quick:
-        pk = pk[:8]
     for p in pk:
         b = P.build_sources(paths=[p])
         origin = {"family": "testpackage", "shape": p.name}
